@@ -7,6 +7,8 @@
 (*                  (<<0,0>> = did not return / NaN, <<1,0>> = not within tolerance of a     *)
 (*                  rational with an admissible denominator)]                                *)
 (* The public call decides accepted / rejected; the helper supplies the value in metres.     *)
+(* Helper and public call may only disagree on the modelled float words (DistanceOps.         *)
+(* IsFloatWord: nan / inf / infinity), any other disagreement is reported as drift.           *)
 EXTENDS DistanceOps, TLC, Json, IOUtils
 
 Cases == ndJsonDeserialize(IOEnv.VERIF_CASES)
@@ -17,6 +19,7 @@ V(c) ==
   IN CASE r.ok /\ ~r.odd /\ ~acc -> <<"valid_rejected", r.why>>
        [] ~r.ok /\ acc -> <<IF r.why = "nonpositive" THEN "nonpositive_accepted" ELSE "malformed_accepted", r.why>>
        [] r.ok /\ acc /\ c.helper = 1 /\ ~REq(c.metres, r.val) -> <<"wrong_metres", ToString(<<c.metres, r.val>>)>>
+       [] c.helper = 1 /\ c.pub = 0 /\ IsFloatWord(c.chars) -> <<"ok", "known float word read by the helper only">>
        [] c.helper # c.pub -> <<"ok", "drift helper and public call disagree">>
        [] OTHER -> <<"ok", IF r.odd THEN "odd" ELSE r.why>>
 
